@@ -10,6 +10,7 @@ use std::sync::{Arc, Mutex};
 pub fn dispatch(kind: u32, v: &Val) -> Option<Val> {
     match kind {
         601 => Some(run_walks(v)),
+        602 => Some(run_race(v)),
         _ => None,
     }
 }
@@ -61,27 +62,7 @@ pub fn run_walks(v: &Val) -> Val {
     if std::env::set_current_dir(pb(v.fld(0))).is_err() {
         return Val::L(vec![Val::N(9)]);
     }
-    let roots: Vec<PathBuf> = v.fld(1).list().iter().map(pb).collect();
-    let c = v.fld(2);
-    let mut wb = WalkBuilder::new(&roots[0]);
-    for r in &roots[1..] {
-        wb.add(r);
-    }
-    wb.max_depth(c.fld(0).opt().map(|d| d.us()))
-        .max_filesize(c.fld(1).opt().map(|d| d.n() as u64))
-        .follow_links(c.fld(2).b())
-        .same_file_system(c.fld(3).b())
-        .hidden(c.fld(6).b())
-        .parents(false)
-        .ignore(true)
-        .git_global(false)
-        .git_ignore(false)
-        .git_exclude(false)
-        .threads(v.fld(3).us());
-    if c.fld(4).b() {
-        let names: Vec<Vec<u8>> = c.fld(5).list().iter().map(|n| n.bytes()).collect();
-        wb.filter_entry(move |d| !names.iter().any(|n| n.as_slice() == d.file_name().as_bytes()));
-    }
+    let wb = builder(v);
     // the iterator may panic (a panic is a finding): keep what was yielded before it and add a marker (5)
     let mut serial: Vec<Val> = vec![];
     let walk = wb.build();
@@ -104,4 +85,91 @@ pub fn run_walks(v: &Val) -> Val {
     });
     let par = acc.lock().unwrap().clone();
     Val::L(vec![Val::L(serial), Val::L(par)])
+}
+
+/// kind 602: a directed schedule. case = (cwd roots cfg threads activate_ms visit_ms rounds): the parallel walker
+/// with the window between an idle worker's successful steal and its re-activation stretched through the
+/// `ignore::walk_verif` yield hook (a sleep at ACTIVATE) and a slow visitor; every round's multiset of
+/// (path, depth) entries is compared with the serial walk's.  On correct code the two are equal under every
+/// schedule, so a stalled machine can only hide a defect, never raise an alarm.
+/// result: (missing extra serial_count rounds_differing)
+pub fn run_race(v: &Val) -> Val {
+    use ignore::walk_verif as verif;
+    use std::time::Duration;
+    if std::env::set_current_dir(pb(v.fld(0))).is_err() {
+        return Val::L(vec![Val::N(9)]);
+    }
+    let wb = builder(v);
+    let activate_ms = v.fld(4).us() as u64;
+    let visit_ms = v.fld(5).us() as u64;
+    let rounds = v.fld(6).us();
+    let key = |d: &DirEntry| (d.path().as_os_str().as_bytes().to_vec(), d.depth());
+    let mut serial: Vec<(Vec<u8>, usize)> = wb.build().filter_map(|r| r.ok()).map(|d| key(&d)).collect();
+    serial.sort();
+    verif::set_yield(Some(Arc::new(move |_worker, kind| {
+        if kind == verif::ACTIVATE {
+            std::thread::sleep(Duration::from_millis(activate_ms));
+        }
+    })));
+    let mut missing: Vec<(Vec<u8>, usize)> = vec![];
+    let mut extra: Vec<(Vec<u8>, usize)> = vec![];
+    let mut differing = 0usize;
+    for _ in 0..rounds {
+        let seen: Arc<Mutex<Vec<(Vec<u8>, usize)>>> = Arc::new(Mutex::new(vec![]));
+        wb.build_parallel().run(|| {
+            let seen = seen.clone();
+            Box::new(move |r| {
+                if let Ok(d) = r {
+                    std::thread::sleep(Duration::from_millis(visit_ms));
+                    seen.lock().unwrap().push((d.path().as_os_str().as_bytes().to_vec(), d.depth()));
+                }
+                WalkState::Continue
+            })
+        });
+        let mut seen = seen.lock().unwrap().clone();
+        seen.sort();
+        if seen != serial {
+            differing += 1;
+            // multiset differences
+            let mut rest = seen.clone();
+            for e in &serial {
+                match rest.iter().position(|x| x == e) {
+                    Some(i) => { rest.remove(i); }
+                    None => missing.push(e.clone()),
+                }
+            }
+            extra.extend(rest);
+        }
+    }
+    verif::set_yield(None);
+    let enc = |l: &Vec<(Vec<u8>, usize)>| {
+        Val::L(l.iter().map(|(p, d)| Val::L(vec![Val::of_bytes(p), Val::of_us(*d)])).collect())
+    };
+    Val::L(vec![enc(&missing), enc(&extra), Val::of_us(serial.len()), Val::of_us(differing)])
+}
+
+/// the WalkBuilder of a case (cwd roots cfg threads ...)
+fn builder(v: &Val) -> WalkBuilder {
+    let roots: Vec<PathBuf> = v.fld(1).list().iter().map(pb).collect();
+    let c = v.fld(2);
+    let mut wb = WalkBuilder::new(&roots[0]);
+    for r in &roots[1..] {
+        wb.add(r);
+    }
+    wb.max_depth(c.fld(0).opt().map(|d| d.us()))
+        .max_filesize(c.fld(1).opt().map(|d| d.n() as u64))
+        .follow_links(c.fld(2).b())
+        .same_file_system(c.fld(3).b())
+        .hidden(c.fld(6).b())
+        .parents(false)
+        .ignore(true)
+        .git_global(false)
+        .git_ignore(false)
+        .git_exclude(false)
+        .threads(v.fld(3).us());
+    if c.fld(4).b() {
+        let names: Vec<Vec<u8>> = c.fld(5).list().iter().map(|n| n.bytes()).collect();
+        wb.filter_entry(move |d| !names.iter().any(|n| n.as_slice() == d.file_name().as_bytes()));
+    }
+    wb
 }
